@@ -691,6 +691,24 @@ def check_view(c, out):
             what = f"reported Jacobian {got.tolist()} differs from the closed form {np.array(Jexp).tolist()}"
         elif what is None and np.abs(got - cd).max() > sc:
             what = f"reported Jacobian {got.tolist()} differs from central differences of the same view {cd.tolist()}"
+        if what is None and nk > 1 and not dv:
+            # a SEQUENCE on the same view: a Jacobian is handed out, then the last knob is disabled, then another Jacobian is asked
+            # for: it must agree with central differences of the view as it is NOW, and the array handed out earlier is the caller's
+            first = view.get_jacobian(xv)
+            kept = np.array(first, dtype=float).copy()
+            p.opt.disable(vary=[nk - 1])
+            second = np.array(view.get_jacobian(xv), dtype=float)
+            cd2 = []
+            for j in range(nk):
+                e = np.zeros(nk)
+                e[j] = h
+                cd2.append((np.array(view(xv + e), dtype=float) - np.array(view(xv - e), dtype=float)) / (2 * h))
+            cd2 = np.array(cd2).T if not c["scalar"] else np.array(cd2)
+            if second.shape != cd2.shape or np.abs(second - cd2).max() > sc:
+                what = (f"after knob {nk - 1} was disabled the reported Jacobian {second.tolist()} differs from central differences of the same "
+                        f"view {cd2.tolist()}")
+            elif not np.array_equal(np.array(first, dtype=float), kept):
+                what = "a Jacobian handed out earlier was changed by a later get_jacobian call"
     except Exception as e:  # noqa
         what = f"{type(e).__name__}: {e}"
     out["distinct"].add(("view", c["fam"], c["kw"] is None, c["tw"] is None, c["rescale"], c["scalar"], dv, dt))
